@@ -645,6 +645,11 @@ func (sa *Application) AddAllocationAsk(ask *Allocation) error {
 	if ask.IsAllocated() || resources.IsZero(ask.GetAllocatedResource()) {
 		return fmt.Errorf("invalid ask added to app %s: %v", sa.ApplicationID, ask)
 	}
+	// a terminated application has no queue any more but can still be registered in the partition
+	// until the asynchronous terminated callback has moved it
+	if sa.queue == nil {
+		return fmt.Errorf("ask %s cannot be added to app %s: application is terminated", ask.GetAllocationKey(), sa.ApplicationID)
+	}
 	if ask.createTime.Before(sa.submissionTime) {
 		sa.submissionTime = ask.createTime
 	}
